@@ -659,8 +659,35 @@ func c10Bolt(c *core.Ctx, part int) {
 		return
 	}
 	defer virginEnv.close()
+	// a populated store in which some stored values are shorter than their type tag promises (written through the raw
+	// bucket API or by another program): every typed reader takes such a value for null
+	oddEnv, err := newQEnv(c, core.NewRand(uint64(part)+7), 8, false)
+	if err != nil {
+		c.Violation("C10 setup", err.Error(), nil)
+		return
+	}
+	defer oddEnv.close()
+	_ = oddEnv.db.Update(nil, func(ctx boltz.MutateContext) error {
+		for i, id := range oddEnv.w.Ids(qx.Things) {
+			b := oddEnv.sc.St(qx.Things).Store.GetEntityBucket(ctx.Tx(), []byte(id))
+			if b == nil || i%2 == 1 {
+				continue
+			}
+			for _, kv := range []struct {
+				k string
+				v []byte
+			}{{"s", []byte{byte(boltz.TypeInt64), 1, 2}}, {"ism", []byte{byte(boltz.TypeBool)}}, {"flt", []byte{byte(boltz.TypeFloat64), 1}}, {"b", []byte{byte(boltz.TypeBool)}}, {"t", []byte{byte(boltz.TypeTime), 1, 2}}, {"ibig", []byte{byte(boltz.TypeInt32), 9}}} {
+				if (i/2+len(kv.k))%3 != 0 {
+					if err := b.Put([]byte(kv.k), kv.v); err == nil {
+						c.Count("stored_values_shorter_than_their_type", 1)
+					}
+				}
+			}
+		}
+		return nil
+	})
 	// one more top-level symbol whose type is only known per row (any-type) on both stores
-	for _, e := range []*qEnv{env, emptyEnv, virginEnv} {
+	for _, e := range []*qEnv{env, emptyEnv, virginEnv, oddEnv} {
 		e.sc.St(qx.Things).Store.AddSymbolWithKey("anything", ast.NodeTypeAnyType, "ism")
 	}
 	sentences := c10SentencesFor(append(append([]string{}, c10BoltLhs...), "anything", "anyOf(anything)"))
@@ -698,6 +725,7 @@ func c10Bolt(c *core.Ctx, part int) {
 			try(env, q, "bolt_queries_accepted")
 			try(emptyEnv, q, "bolt_queries_on_empty_store")
 			try(virginEnv, q, "bolt_queries_on_a_database_never_written_to")
+			try(oddEnv, q, "bolt_queries_over_values_shorter_than_their_type")
 		}
 	}
 }
